@@ -75,13 +75,15 @@ type c14WillSpec struct {
 }
 
 type c14AuthScen struct {
-	Enhanced bool         `json:"enhanced,omitempty"` // CONNECT carries an Authentication Method (v5)
-	Err      c14Err       `json:"err"`
-	Will     *c14WillSpec `json:"will,omitempty"`
-	Clean    bool         `json:"clean"`
-	Expiry   bool         `json:"expiry,omitempty"` // v5: Session Expiry Interval 1000
-	User     bool         `json:"user,omitempty"`
-	Pipeline bool         `json:"pipeline,omitempty"` // SUBSCRIBE + retained PUBLISH sent right behind the CONNECT
+	Enhanced bool `json:"enhanced,omitempty"` // CONNECT carries an Authentication Method (v5)
+	// EmptyMethod: the Authentication Method property is present but zero length (still "an authentication method")
+	EmptyMethod bool         `json:"empty_method,omitempty"`
+	Err         c14Err       `json:"err"`
+	Will        *c14WillSpec `json:"will,omitempty"`
+	Clean       bool         `json:"clean"`
+	Expiry      bool         `json:"expiry,omitempty"` // v5: Session Expiry Interval 1000
+	User        bool         `json:"user,omitempty"`
+	Pipeline    bool         `json:"pipeline,omitempty"` // SUBSCRIBE + retained PUBLISH sent right behind the CONNECT
 	// CheckClosed: region "the broker closes the network connection after the failing CONNACK"
 	// (a bounded liveness wait, therefore its own small test)
 	CheckClosed bool `json:"check_closed,omitempty"`
@@ -201,6 +203,7 @@ func genC14Auth(v3map bool) func(t *rapid.T) c14DecScen {
 			s.V = rapid.SampledFrom([]int{4, 5, 5}).Draw(t, "v")
 			if s.V == 5 {
 				a.Enhanced = rapid.IntRange(0, 2).Draw(t, "enhanced") == 0
+				a.EmptyMethod = a.Enhanced && rapid.IntRange(0, 2).Draw(t, "empty_method") == 0
 				a.Err = genC14Err(t, "err", c14ConnackCodes)
 				a.Expiry = c14Bool(t, "expiry")
 			} else {
@@ -272,6 +275,10 @@ func runC14Auth(s c14DecScen, c *ev.Case) *ev.Violation {
 		cp.Props = &mw.Props{}
 		if a.Enhanced {
 			cp.Props.AuthMethod = strp("m")
+			if a.EmptyMethod {
+				cp.Props.AuthMethod = strp("")
+				c.Label("auth_empty_method")
+			}
 		}
 		if a.Expiry {
 			cp.Props.SessionExpiry = u32p(1000)
